@@ -66,9 +66,11 @@ impl<Opt, Owner> OpaquePath<Opt, Owner> {
 pub use ast::StringEncoding;
 #[derive(Copy, Clone)] pub enum IntType { I8, I16, I32, I64, U8, U16, U32, U64 }
 #[derive(Copy, Clone)] pub enum PrimitiveType { Bool, Char, Byte, Int(IntType), Other }
+// the HIR primitive an AST primitive lowers to (unit prim_lowering proves on the real from_ast that width/signedness/kind are preserved)
+pub uninterp spec fn spec_prim_from_ast(p: ast::PrimitiveType) -> PrimitiveType;
 impl PrimitiveType {
     #[verifier::external_body]
-    pub fn from_ast(prim: ast::PrimitiveType) -> Self { unimplemented!() }
+    pub fn from_ast(prim: ast::PrimitiveType) -> (r: Self) ensures r == spec_prim_from_ast(prim) { unimplemented!() }
 }
 #[derive(Copy, Clone)]
 pub enum Slice { Str(Option<MaybeStatic<Lifetime>>, StringEncoding), Primitive(Option<Borrow>, PrimitiveType), Strs(StringEncoding) }
